@@ -2056,6 +2056,12 @@ func (t *TicketsOrKeys) Decode(d *Decoder) error {
 	// Otherwise, it means Tickets is not nil
 
 	firstByte, err := d.ReadPointerFlag()
+	if err != nil {
+		return err
+	}
+	if firstByte > 1 {
+		return fmt.Errorf("TicketsOrKeys: invalid discriminator %d", firstByte)
+	}
 	isTickets := firstByte == 0
 	isKeys := firstByte == 1
 
